@@ -126,6 +126,13 @@ def run(ctx):
               covering_relation(ctx, bg_, 'region-structure') + minimal_scan(ctx, bg_, 'region-structure'), 1)
     for name_, m_ in sorted(repo.methods(LI, 'LocalInference').items()):
         measurement_keys_kept(ctx, m_, 'projection-order')
+    # the oracles run for EVERY measurement set: a fold without a start value must not meet an empty selection
+    from ._generic import reduce_without_start
+    n_fold = 0
+    for rel_, cls_ in (('src/mbi/factor_graph.py', 'FactorGraph'), ('src/mbi/region_graph.py', 'RegionGraph')):
+        for name_, m_ in sorted(repo.methods(rel_, cls_).items()):
+            n_fold += reduce_without_start(ctx, m_, 'conformance')
+    ctx.count('folds without a start value in the oracles', n_fold)
 
     # ---- dispatch: oracle name -> constructed class --------------------------------------
     dispatch = {}
